@@ -66,6 +66,10 @@ impl<'a> Iterator for TrieEntryIter<'a> {
             // Unwrap is safe: access is always in bounds
             // It is optimized away: https://rust.godbolt.org/z/va9K3az4n
             let k = self.data.get(i).unwrap();
+            if *k == 0 {
+                // the zero byte is the key terminator of the double array: no key continues over it
+                return None;
+            }
             node_pos ^= *k as usize;
             unit = self.get(node_pos) as usize;
             if Trie::label(unit) != *k as usize {
